@@ -14,7 +14,7 @@ use std::collections::BTreeMap;
 pub const PROP: PropDef = PropDef {
     id: "C10",
     parts,
-    rule: "full product over app-set order, response app list (without repetition, incl. an unknown id), per-app status {noupdate, ok+manifest, ok-manifest}, unparseable body, policy decision, plan result, per-app installer result and delivery outcome {ok, transport, HTTP 500, forged} of each individual report; every execution is compared with the reference report list and, differentially, with the all-delivered run of the same script; non-trivial = at least one event report sent",
+    rule: "full product over the number of failed update-check attempts before the answered one {0,1,2}, app-set order, response app list (without repetition, incl. an unknown id), per-app status {noupdate, ok+manifest, ok-manifest}, unparseable body, policy decision, plan result, per-app installer result and delivery outcome {ok, transport, HTTP 500, forged} of each individual report; every execution is compared with the reference report list and, differentially, with the all-delivered run of the same script; non-trivial = at least one event report sent",
     assumptions: &[
         "a report that would name zero apps may be sent or omitted (statement silent)",
         "lost-event metric count for one undelivered template report naming N apps: 1..N accepted",
@@ -40,6 +40,9 @@ struct D {
     replay: Option<std::vec::IntoIter<usize>>,
     doc: Option<Option<Vec<AppDoc>>>,
     deliveries: Vec<R>,
+    /// update-check attempts that fail (transport error / HTTP 500) before the answered one
+    fail_first: Option<usize>,
+    uc_attempts: usize,
 }
 
 impl D {
@@ -66,6 +69,13 @@ impl Director for D {
     fn http(&mut self, w: &mut Inner, req: &WireReq) -> HttpAns {
         match req.kind {
             ReqKind::UpdateCheck => {
+                if self.fail_first.is_none() {
+                    self.fail_first = Some(self.ch(w, "uc.failed_attempts_first", if self.cup { 2 } else { 3 }));
+                }
+                self.uc_attempts += 1;
+                if self.uc_attempts <= self.fail_first.unwrap() {
+                    return if self.uc_attempts == 1 { HttpAns::Transport } else { HttpAns::Resp(RespSpec::ok(b"busy".to_vec()).status(503)) };
+                }
                 if self.doc.is_none() {
                     let d = if self.ch(w, "uc.unparseable", 2) == 1 {
                         None
@@ -164,6 +174,8 @@ fn run_one(ctx: &RunCtx, tier: Tier, cup: bool) -> RunOut {
         replay: None,
         doc: None,
         deliveries: vec![],
+        fail_first: None,
+        uc_attempts: 0,
     };
     let mut e = Exec::new(mk_setup(), Box::new(d), Store::default());
     let stop = e.run_auto(3000, |_| false);
@@ -199,6 +211,8 @@ fn run_one(ctx: &RunCtx, tier: Tier, cup: bool) -> RunOut {
             replay: Some(rec.into_iter()),
             doc: None,
             deliveries: vec![],
+            fail_first: None,
+            uc_attempts: 0,
         };
         let mut e2 = Exec::new(mk_setup(), Box::new(d2), Store::default());
         let stop2 = e2.run_auto(3000, |_| false);
@@ -263,10 +277,17 @@ struct ExpReport {
 fn oracle(log: &[Obs], set_order: &[String], versions: &BTreeMap<String, String>, cup: bool) -> V {
     let reqs: Vec<&WireReq> = log.iter().filter_map(|o| if let Obs::Req(r) = o { Some(&**r) } else { None }).collect();
     let answers: BTreeMap<usize, &HttpAns> = log.iter().filter_map(|o| if let Obs::Resp(i, a) = o { Some((*i, a)) } else { None }).collect();
-    let uc = match reqs.iter().find(|r| r.kind == ReqKind::UpdateCheck) {
+    // the update check of this session is the attempt that was answered (the last one); earlier
+    // attempts failed and were retried within the same session
+    let uc = match reqs.iter().rev().find(|r| r.kind == ReqKind::UpdateCheck) {
         Some(r) => *r,
         None => return bad("no update check request", ""),
     };
+    for a in reqs.iter().filter(|r| r.kind == ReqKind::UpdateCheck) {
+        if a.session != uc.session {
+            return bad("update-check attempts of one check use different session ids", format!("req#{} vs req#{}", a.idx, uc.idx));
+        }
+    }
     let body = match answers.get(&uc.idx) {
         Some(HttpAns::Resp(s)) => s.body.clone(),
         _ => return bad("unexpected update-check answer", ""),
@@ -385,7 +406,7 @@ fn oracle(log: &[Obs], set_order: &[String], versions: &BTreeMap<String, String>
             format!("sent: {:?}", got_nz.iter().map(|r| parse(r)).collect::<Vec<_>>()),
         );
     }
-    let mut seen_ids: Vec<usize> = vec![uc.request_id.unwrap_or(usize::MAX)];
+    let mut seen_ids: Vec<usize> = reqs.iter().filter(|r| r.kind == ReqKind::UpdateCheck).map(|r| r.request_id.unwrap_or(usize::MAX)).collect();
     for r in &reports {
         if r.session != uc.session || r.session.is_none() {
             return bad("event report not in the session of the update check", format!("req#{}", r.idx));
@@ -444,7 +465,7 @@ fn parts(tier: Tier) -> Vec<PartDef> {
         PartDef::new(
             "reports-nocup",
             Cfg::new("C10/reports-nocup"),
-            json!({"apps": tier.pick("1..2", "1..3"), "app_set_orders": "all permutations", "response_len": tier.pick("0..2", "0..3"),
+            json!({"failed_update_check_attempts_before_the_answered_one": [0, 1, 2], "apps": tier.pick("1..2", "1..3"), "app_set_orders": "all permutations", "response_len": tier.pick("0..2", "0..3"),
                    "statuses": ["noupdate", "ok+manifest", "ok-manifest"], "unknown_id": true, "unparseable": true,
                    "policy": 3, "plan": 2, "installer_per_app": 3, "delivery_per_report": ["ok", "transport", "HTTP 500"], "exploration": "full product + differential baseline run"}),
             move |ctx| run_one(ctx, tier, false),
@@ -452,7 +473,7 @@ fn parts(tier: Tier) -> Vec<PartDef> {
         PartDef::new(
             "reports-cup",
             Cfg::new("C10/reports-cup"),
-            json!({"apps": "1..2", "response_len": "0..2", "delivery_per_report": ["ok", "transport", "HTTP 500", "signed by unregistered key"], "cup": "real verifier",
+            json!({"failed_update_check_attempts_before_the_answered_one": [0, 1], "apps": "1..2", "response_len": "0..2", "delivery_per_report": ["ok", "transport", "HTTP 500", "signed by unregistered key"], "cup": "real verifier",
                    "exploration": "full product + differential baseline run"}),
             move |ctx| run_one(ctx, tier, true),
         ),
